@@ -30,7 +30,11 @@ from .base import components, connected, has_2x2, neighbors4
 from vlib.harness import Failure, HarnessError, repo_frame_sig
 
 K_MODELS = 3
-Z3_BUDGET_MS = 40000   # per z3 call
+CHEAP_NEG = 18
+CHEAP = {"masyu", "slitherlink", "yajilin", "geradeweg", "castle_wall", "simpleloop", "akari", "creek", "gokigen",
+         "aquarium", "star_battle", "norinori", "lits", "putteria", "building", "doppelblock", "compass"}
+N_NEG = 6   # negative probes per instance (grids next to a rule-obeying one that the checker rejects)
+Z3_BUDGET_MS = 20000   # per z3 call
 CASE_BUDGET_S = 150    # z3 time per case (a refinement loop can make hundreds of calls)
 
 
@@ -78,6 +82,9 @@ class z3_budget:
 
 # ------------------------------------------------------------------ model mode
 class ModelMode:
+    def __init__(self, fix=None):
+        self.fix = fix  # [(variable id, value)]: the answer cells are fixed before the model is sought
+
     def __enter__(self):
         from cspuz import solver as smod
 
@@ -89,6 +96,16 @@ class ModelMode:
 
         def solve(this, *a, **kw):
             outer.solvers.append(this)
+            if outer.fix is not None:
+                from cspuz.expr import BoolVar
+
+                byid = {v.id: v for v in this.variables}
+                for vid, val in outer.fix:
+                    v = byid[vid]
+                    if isinstance(v, BoolVar):
+                        this.ensure(v if val else ~v)
+                    else:
+                        this.ensure(v == val)
             return this.find_answer(*a, **kw)
 
         self.cls.solve = solve
@@ -114,7 +131,7 @@ def sut_models(spec, inst, k, planted=None):
         with ModelMode() as mm:
             ok, flat = spec.solve(inst)
         if not ok:
-            return out, (False if planted is not None else None)
+            return out, (False if planted is not None else None), [v.id for v in mm.vars]
         if len(mm.solvers) != 1 or len(mm.vars) != len(flat):
             raise HarnessError("model mode: %d solvers, %d captured cells for %d answers"
                                % (len(mm.solvers), len(mm.vars), len(flat)))
@@ -144,7 +161,22 @@ def sut_models(spec, inst, k, planted=None):
                     else:
                         solver.ensure(v == val)
                 admitted = bool(solver.find_answer())
-    return out, admitted
+    return out, admitted, [v.id for v in mm.vars]
+
+
+def is_model(spec, inst, grid, ids):
+    """is `grid` (flat, answer order) a model of what solve_<puzzle> posts for `inst`?  A fresh run of the
+    unmodified solve function with the answer cells fixed (variable ids are those of an earlier run on
+    an instance of the same geometry: the construction is deterministic)"""
+    import warnings
+
+    with warnings.catch_warnings():
+        warnings.simplefilter("ignore")
+        with ModelMode(fix=list(zip(ids, grid))) as mm:
+            ok, flat = spec.solve(inst)
+    if ok and ([v.id for v in mm.vars] != list(ids) or tuple(flat) != tuple(grid)):
+        raise HarnessError("is_model: answer variables moved between two runs of the same geometry")
+    return bool(ok)
 
 
 def real_solve(spec, inst):
@@ -165,12 +197,133 @@ def _guard(name, what, fn):
                       observed="%s: %s (%s)" % (type(e).__name__, str(e)[:120], what))
 
 
-def examine(ls, inst, planted):
+def perturb_grid(grid, kind, i, j):
+    g = list(grid)
+    n = len(g)
+    if n == 0:
+        return None
+    i %= n
+    j %= n
+    if kind == 0:
+        if isinstance(g[i], bool):
+            g[i] = not g[i]
+        elif g[j] != g[i]:
+            g[i] = g[j]
+        else:
+            g[i] = g[i] + 1
+    else:
+        if g[i] == g[j]:
+            return None
+        g[i], g[j] = g[j], g[i]
+    return tuple(g)
+
+
+def negative_probes(ls, inst, S, ids, neg):
+    """grids / clues next to a rule-obeying grid S that the rule checker REJECTS must not be models of the
+    posted constraints.  kind 0/1: S with one cell changed / two cells swapped (same instance);
+    kind 2: S itself under an instance with one clue changed so that S contradicts it."""
+    name = ls.name
+    n = 0
+    for (kind, i, j) in neg:
+        if kind <= 1:
+            g = perturb_grid(S, kind, i, j)
+            inst2 = inst
+        else:
+            g = S
+            inst2 = mutate_clue(ls, inst, i, j)
+        if g is None or inst2 is None:
+            continue
+        try:
+            verdict = ls.check(inst2, g)
+        except Exception:
+            continue  # values outside what the checker can read: not a probe
+        if verdict is not False:
+            continue
+        try:
+            adm = is_model(ls.spec, inst2, g, ids)
+        except (HarnessError, SolverBudget):
+            raise
+        except Exception as e:
+            if kind <= 1:
+                raise Failure("%s|large|solver-raises|%s" % (name, repo_frame_sig(e)),
+                              observed="%s: %s (negative probe)" % (type(e).__name__, str(e)[:120]))
+            continue  # a changed clue may leave the module's input domain: not a probe
+        n += 1
+        if adm:
+            raise Failure("%s|large|rule-violating-grid-is-a-model-of-the-posted-constraints" % name,
+                          observed=dict(grid=list(g), changed=("cell" if kind == 0 else "two cells swapped" if kind == 1 else "clue"),
+                                        inst=inst2 if kind == 2 else None),
+                          expected="the rule checker rejects this grid")
+    return n
+
+
+# which parts of an instance are clues (and may be changed without touching the geometry), and the values
+# a clue can take there.  leaf(path, value) says whether that leaf is a clue site.
+CLUES = {
+    "nurikabe": (["problem"], lambda p, v: True, [0, -1, 1, 2, 3, 4, 5, 6, 7]),
+    "akari": (["problem"], lambda p, v: v >= -1, [-1, 0, 1, 2, 3, 4]),
+    "yinyang": (["problem"], lambda p, v: True, [0, 1, 2]),
+    "creek": (["problem"], lambda p, v: True, [-1, 0, 1, 2, 3, 4]),
+    "gokigen": (["problem"], lambda p, v: True, [-1, 0, 1, 2, 3, 4]),
+    "aquarium": (["clue_row", "clue_col"], lambda p, v: True, [-1, 0, 1, 2, 3, 4, 5, 6]),
+    "nurimisaki": (["problem"], lambda p, v: True, [-1, 0, 2, 3, 4, 5]),
+    "heyawake": (["problem"], lambda p, v: p[-1] == 4, [-1, 0, 1, 2, 3, 4, 5]),
+    "slitherlink": (["problem"], lambda p, v: True, [-1, 0, 1, 2, 3]),
+    "masyu": (["problem"], lambda p, v: True, [0, 1, 2]),
+    "yajilin": (["problem"], lambda p, v: v != "..", ["??", "^0", "^1", "v0", "v2", "<0", "<1", ">1", ">3", "<11", ">10"]),
+    "geradeweg": (["problem"], lambda p, v: True, [0, 1, 2, 3, 4, 5, 8, 9, 10]),
+    "castle_wall": (["arrow", "inside"], lambda p, v: v != "..",
+                    ["##", "^0", "^1", "v0", "v2", "<0", "<1", ">1", ">3", ">10", True, False, None]),
+    "sudoku": (["problem"], lambda p, v: True, [0, 1, 2, 3, 4, 5, 9, 10, 16]),
+    "building": (["up", "dw", "lf", "rg"], lambda p, v: True, [0, 1, 2, 3, 4, 5, 6]),
+    "doppelblock": (["clue_row", "clue_col"], lambda p, v: True, [-1, 0, 1, 2, 3, 4, 5, 6, 7, 10]),
+    "fillomino": (["problem"], lambda p, v: v != 0, [1, 2, 3, 4, 5, 6, 17]),
+    "compass": (["problem"], lambda p, v: p[-1] >= 2, [-1, 0, 1, 2, 3, 4, 5]),
+    "fivecells": (["problem"], lambda p, v: v >= -1, [-1, 0, 1, 2, 3, 4]),
+    "view": (["problem"], lambda p, v: True, [-1, 0, 1, 2, 3, 4, 5, 10]),
+    "shakashaka": (["problem"], lambda p, v: v is not None, [-1, 0, 1, 2, 3, 4]),
+}
+
+
+def mutate_clue(ls, inst, i, j):
+    """a deep copy of inst with one clue leaf set to another value, or None"""
+    import copy
+
+    spec = CLUES.get(ls.name)
+    if spec is None:
+        return None
+    keys, leaf_ok, values = spec
+    inst2 = copy.deepcopy(inst)
+    sites = []
+
+    def walk(node, path):
+        for k, v in enumerate(node):
+            if isinstance(v, list):
+                walk(v, path + (k,))
+            elif leaf_ok(path + (k,), v):
+                sites.append((node, k))
+
+    for key in keys:
+        if key in inst2:
+            walk(inst2[key], (key,))
+    if not sites:
+        return None
+    node, k = sites[i % len(sites)]
+    old = node[k]
+    # castle wall: arrow texts and inside flags do not mix
+    pool = [v for v in values if v != old and (isinstance(v, str) == isinstance(old, str))]
+    if not pool:
+        return None
+    node[k] = pool[j % len(pool)]
+    return inst2
+
+
+def examine(ls, inst, planted, neg=()):
     """soundness / completeness / exactness of one instance.  -> dict(sat, n_models, valid=[...])"""
     name = ls.name
     if planted is not None and ls.check(inst, planted) is not True:
         raise HarnessError("%s: planted grid rejected by its own checker" % name)
-    models, admitted = _guard(name, "model mode", lambda: sut_models(ls.spec, inst, K_MODELS, planted))
+    models, admitted, ids = _guard(name, "model mode", lambda: sut_models(ls.spec, inst, K_MODELS, planted))
     if admitted is False:
         raise Failure("%s|large|rule-obeying-grid-is-not-a-model-of-the-posted-constraints" % name,
                       observed=dict(grid=list(planted)), expected="the planted grid obeys every rule and clue")
@@ -184,9 +337,10 @@ def examine(ls, inst, planted):
             valid.append(m)
     if planted is not None and planted not in valid:
         valid.append(planted)
-    out = dict(sat=bool(models), n_models=len(models), valid=valid, decided=0)
+    out = dict(sat=bool(models), n_models=len(models), valid=valid, decided=0, negatives=0)
     if not valid:
         return out
+    out["negatives"] = negative_probes(ls, inst, valid[-1], ids, neg)
     is_sat, got = _guard(name, "solve", lambda: real_solve(ls.spec, inst))
     if not is_sat:
         raise Failure("%s|large|reports-no-solution-but-one-exists" % name, observed=False,
@@ -216,16 +370,16 @@ def _run_large(ls, case):
     res = dict(phase_a=None, phase_b=None)
     if case.get("derived") is not None:  # replay of a failure found in the second phase
         d = case["derived"]
-        res["phase_b"] = examine(ls, d["inst"], tuple(d["planted"]))
+        res["phase_b"] = examine(ls, d["inst"], tuple(d["planted"]), case.get("neg", ()))
         return res
-    a = examine(ls, inst, planted)
+    a = examine(ls, inst, planted, case.get("neg", ()))
     res["phase_a"] = a
     if planted is None and a["valid"] and ls.reclue is not None:
         S = a["valid"][case["pick"] % len(a["valid"])]
         inst1 = ls.reclue(inst, S, case["plan"])
         if inst1 is not None:
             try:
-                res["phase_b"] = examine(ls, inst1, S)
+                res["phase_b"] = examine(ls, inst1, S, case.get("neg", ()))
             except Failure as f:
                 f.derived = dict(inst=inst1, planted=list(S))
                 raise
@@ -377,6 +531,7 @@ class LargeSpec:
     spec = None
     reclue = None
     n_plan = 100
+    n_neg = None  # negative probes per instance; default N_NEG, CHEAP_NEG for the puzzles in CHEAP
 
     def make(self, draw):
         raise NotImplementedError
@@ -1566,9 +1721,12 @@ def case_strategy(ls):
     @st.composite
     def c(draw):
         made = ls.make(draw)
+        nn = ls.n_neg or (CHEAP_NEG if ls.name in CHEAP else N_NEG)
         plan = draw(st.lists(st.integers(0, 5), min_size=ls.n_plan, max_size=ls.n_plan)) if ls.reclue else []
+        neg = draw(st.lists(st.tuples(st.integers(0, 2), st.integers(0, 10 ** 6), st.integers(0, 10 ** 6)).map(list),
+                            min_size=nn, max_size=nn))
         return dict(puzzle=ls.name, layer="large", inst=made["inst"], planted=made["planted"], plan=plan,
-                    pick=draw(st.integers(0, K_MODELS - 1)))
+                    pick=draw(st.integers(0, K_MODELS - 1)), neg=neg)
 
     return c()
 
